@@ -329,6 +329,33 @@ func (en *Engine) checkProperty(id, tier, verif, workdir string, t0 time.Time) i
 		fmt.Printf("VIOLATION property=%s replay=%s obligation=%s%s\n", id, path, base, suffix)
 	}
 	sort.Strings(undecided)
+	// bounded stand-in: units that fell outside the verifier's reach are exercised by the replay
+	// harness of their family (a bounded check, never counted as proof); a concrete failing input
+	// found that way is a violation.
+	var boundedRuns []string
+	if violations == 0 && len(undecided) > 0 {
+		fams := map[string]bool{}
+		for _, u := range undecided {
+			unit, _, _ := strings.Cut(u, ": ")
+			if strings.HasPrefix(unit, "VACUOUS") || strings.HasPrefix(unit, "lemma") || strings.HasPrefix(unit, "no unit matches") {
+				unit = strings.TrimPrefix(u, "no unit matches ")
+			}
+			fams[familyFor(unit, ps.Replay)] = true
+		}
+		for _, fam := range sortedKeys(fams) {
+			if _, done := outcomes[fam]; !done {
+				outcomes[fam] = en.runReplayFamily(fam, id, verif)
+			}
+			boundedRuns = append(boundedRuns, fam+": "+trunc(outcomes[fam], 300))
+			if strings.HasPrefix(outcomes[fam], "REPRODUCED") {
+				violations++
+				exit = 1
+				name := "bounded-stand-in[" + fam + "]"
+				path := en.writeReplay(en.outDir, id, name, []Failure{{Name: name, Base: name, Verdict: "failing input found by the bounded replay harness", Solver: "go test", Output: strings.Join(undecided, "\n"), Kind: "bounded"}}, fam, outcomes[fam])
+				fmt.Printf("VIOLATION property=%s replay=%s obligation=%s (contract obligations undecided; concrete failing input from the bounded stand-in)\n", id, path, name)
+			}
+		}
+	}
 	if exit == 0 && len(undecided) > 0 {
 		exit = 2
 	}
@@ -383,7 +410,7 @@ func (en *Engine) checkProperty(id, tier, verif, workdir string, t0 time.Time) i
 			"samples":                  samples,
 			"undecided":                undecided,
 			"known_findings":           kfEv,
-			"bounded_checks":           []string{},
+			"bounded_checks":           boundedRuns,
 		},
 		"assumptions": assumptions,
 		"wall_s":      time.Since(t0).Seconds(),
